@@ -376,7 +376,7 @@ func main() {
 	out := lib.NewOut("C08", f)
 	out.Imports = "From Verif Require Import Model.Login.\n"
 	out.Rule = "protocols 1.8 / 1.19.1 (key window) / 1.20.1 / 1.20.2 / 26.2; online mode 85%, pre-login result none/deny/force-online/force-offline, compression on/off, ForceKeyAuthentication on/off, session outcome profile (40%) or one of 204/401/500/transport error/empty body/bad profile; packet sequences of length <= 6: vanilla exchange with one response variant (good, wrong token, corrupted token ciphertext, corrupted secret ciphertext, 8-byte secret), vanilla with one inserted packet, skipped/repeated steps, invalid names, random sequences over {login start (valid/invalid name, no/expired/forged key), encryption response variants, unsolicited plugin response, login acknowledged, unknown/undecodable packet}; non-trivial = the sequence contains a login start AND an encryption response; distinct = distinct (configuration, operations) ignoring key material"
-	n := f.Count(360)
+	n := f.Count(300)
 	validAlpha := "abcdefghijklmnopqrstuvwxyzABCDEFGHIJKLMNOPQRSTUVWXYZ0123456789_"
 	plans := make([]plan, n)
 	for i := range plans {
